@@ -10,7 +10,7 @@
 (* bounds.  Only accepted calls and deliveries are explored: a rejected     *)
 (* call leaves the model's world unchanged by construction (rollback).     *)
 (***************************************************************************)
-EXTENDS StepProps
+EXTENDS StepProps, Json
 
 CONSTANTS Fns,        \* which functions Next offers
           MaxMsgs,    \* bound on in-flight messages
@@ -21,6 +21,8 @@ CONSTANTS Fns,        \* which functions Next offers
           PauseToks, PauseShards,   \* tokens x shards the system contract may pause / unpause
           GasPoints,  \* the values of GasProvided offered for every call
           ExploreRejected, \* TRUE: rejected calls are explored too (totality of the reference operator)
+          RejSample,  \* one in RejSample of the rejected near-miss calls is emitted as well
+          EmitTransitions, \* TRUE: print every explored transition (pre-state, call, verdict) as JSON for state-injection replay
           Bugs,       \* defect switches (self-test)
           Checked     \* predicate names evaluated on every step
 
@@ -179,6 +181,9 @@ Finish(c, r, kind) ==
   /\ ev' = [a |-> e.a, fn |-> e.fn, caller |-> e.caller, rcpt |-> e.rcpt, res |-> e.res, sh |-> e.sh, gas |-> e.gas, ct |-> e.ct, mid |-> e.mid,
             args |-> [i \in 1..Len(e.args) |-> IF e.args[i].he THEN "" ELSE e.args[i].h]]   \* enough to replay the step on the real code
   /\ viol' = {n \in DirectNames \cap Checked : ~StepPred(n, w, e, r.w, h, r)}
+  /\ ((EmitTransitions /\ (r.ok \/ (kind = "exec" /\ Pre(c) /\ RandomElement(1..RejSample) = 1))) => PrintT(<<"TRANS", ToJson([w |-> w, res |-> e.res,
+                                c |-> [a |-> e.a, fn |-> e.fn, caller |-> e.caller, rcpt |-> e.rcpt, res |-> e.res, sh |-> e.sh, gas |-> e.gas, ct |-> e.ct, mid |-> e.mid,
+                                       args |-> [i \in 1..Len(e.args) |-> IF e.args[i].he THEN "" ELSE e.args[i].h]]])>>))
 
 DoExec == \E c0 \in Calls, g \in GasPoints :
             LET c == [c0 EXCEPT !.gas = g] IN
